@@ -52,7 +52,7 @@ def check_stream(case, seq, ns, data, delimited) -> list[tuple[str, str]]:
     want_ns = [(n, ("I", i)) for n, i in ns]
     ref_ns = jspec.namespaces(per)
     if ref_ns[: len(want_ns)] != want_ns or any(
-            x != ("late", ("I", "http://late/ns#")) for x in ref_ns[len(want_ns):]):
+            x != (want_ns[0][0], ("I", "http://late/ns#")) for x in ref_ns[len(want_ns):]):
         raise HarnessError(f"reference encoder/decoder disagree on namespaces {case}")
     want_ns = ref_ns
     want_events = [("st", T.norm_st(e[1])) if e[0] == "st" else ("ns", e[1], e[2])
@@ -83,6 +83,31 @@ def check_stream(case, seq, ns, data, delimited) -> list[tuple[str, str]]:
                 fails.append((f"{api}.{reader}", f"{api} {reader} returns statements and "
                                                  f"declarations in the order {evs}, the stream "
                                                  f"has them in the order {want_events}"))
+    # what a graph / sink filled from the stream knows about the declared namespaces
+    if want_ns:
+        declared = [i[1] for _, i in want_ns]
+        try:
+            from pyjelly.integrations.generic import parse as gp  # noqa: PLC0415
+
+            sink = gp.parse_jelly_to_graph(io.BytesIO(data))
+            have = dict((p, T.from_generic(i)[1]) for p, i in sink.namespaces)
+            last = {}
+            for p, i in want_ns:
+                last[p] = i[1]
+            if have != last:
+                fails.append(("generic.to_graph", f"sink holds bindings {have}, the stream's "
+                                                  f"declarations amount to {last}"))
+            if rdf11:
+                from pyjelly.integrations.rdflib import parse as rp  # noqa: PLC0415
+
+                g = rp.parse_jelly_to_graph(io.BytesIO(data))
+                bound = {str(u) for _, u in g.namespaces()}
+                missing = [d for d in declared if d not in bound]
+                if missing:
+                    fails.append(("rdflib.to_graph", f"graph has no binding for the declared "
+                                                     f"namespace(s) {missing}"))
+        except Exception as e:  # noqa: BLE001
+            fails.append(("to_graph", f"{type(e).__name__}: {e}"))
     return fails
 
 
